@@ -214,3 +214,152 @@ Definition validate_unspents (t : tx) : outcome Z :=
   do _ <- check_inputs (t_unspents t) (t_ins t) 0;
   fee t.
 End DB.
+
+(* ==================================================================================================
+   The transaction as a mutable Python object.  The functions above return the new value of the
+   transaction; the versions below also say what the object looks like after a call that RAISED
+   (state-passing: result * state afterwards), and `step`/`run` execute a history of observer calls
+   and mutations by every route (official setter, unspents_from_db, direct attribute assignment,
+   in-place edits, append/clear, distribute_from_split_pool) on one object.
+   As the code is in /repo today a Tx has no state besides the fields of `tx` (no memo attributes).
+   ================================================================================================== *)
+
+(* result of a call as outcome Z: None -> 0, bool -> 0/1 *)
+Definition b2o (b : bool) : outcome Z := Ret (if b then 1 else 0).
+
+Section ByteCountSt.
+Variable tx_byte_count : tx -> Z.
+
+(* distribute_from_split_pool with the object state made explicit: both ValueErrors (and the AttributeError
+   of a None unspent) are raised before the assignment loop starts; the loop itself cannot raise *)
+Definition distribute_from_split_pool_st (t : tx) (fe : feearg) : outcome Z * tx :=
+  let fee := fee_value tx_byte_count t fe in
+  let zero_count := zero_count_of (t_outs t) in
+  if 0 <? zero_count then
+    match sum_unspents (t_unspents t) with
+    | Ret total_coin_value =>
+      let remaining_coins := total_coin_value - (total_out t + fee) in
+      if remaining_coins <? 0 then (Raise E_VALUE, t)
+      else if remaining_coins <? zero_count then (Raise E_VALUE, t)
+      else match split_with_remainder remaining_coins zero_count with
+           | Ret vals => (Ret zero_count, set_outs t (fill_zero (t_outs t) vals))   (* the in-place loop *)
+           | Raise e => (Raise e, t)      (* the generator raises on its first next(), before any assignment *)
+           | OutOfFuel => (OutOfFuel, t)
+           end
+    | Raise e => (Raise e, t)
+    | OutOfFuel => (OutOfFuel, t)
+    end
+  else (Ret zero_count, t).
+End ByteCountSt.
+
+Definition with_unspents (t : tx) (us : list (option txout)) : tx :=
+  mk_tx (t_version t) (t_ins t) (t_outs t) (t_lock_time t) us.
+Definition with_ins (t : tx) (ins : list txin) : tx :=
+  mk_tx (t_version t) ins (t_outs t) (t_lock_time t) (t_unspents t).
+
+(* coins/Tx.py set_unspents: the length test precedes the assignment *)
+Definition set_unspents_st (t : tx) (us : list (option txout)) : outcome Z * tx :=
+  if negb (Nat.eqb (length us) (length (t_ins t))) then (Raise E_VALUE, t)
+  else (Ret 0, with_unspents t us).
+
+Fixpoint replace_nth {A} (i : nat) (a : A) (l : list A) : list A :=
+  match l, i with
+  | [], _ => []
+  | _ :: r, O => a :: r
+  | x :: r, S j => x :: replace_nth j a r
+  end.
+
+(* tx.unspents[i].coin_value = v   (i >= 0) *)
+Definition edit_unspent_st (t : tx) (i : nat) (v : Z) : outcome Z * tx :=
+  match nth_error (t_unspents t) i with
+  | None => (Raise E_INDEX, t)
+  | Some None => (Raise E_ATTR, t)
+  | Some (Some u) => (Ret 0, with_unspents t (replace_nth i (Some (mk_txout v (o_script u))) (t_unspents t)))
+  end.
+(* tx.txs_out[i].coin_value = v   (i >= 0) *)
+Definition edit_out_st (t : tx) (i : nat) (v : Z) : outcome Z * tx :=
+  match nth_error (t_outs t) i with
+  | None => (Raise E_INDEX, t)
+  | Some o => (Ret 0, set_outs t (replace_nth i (mk_txout v (o_script o)) (t_outs t)))
+  end.
+
+Section History.
+Variable tx_byte_count : tx -> Z.
+Variable srctx : Type.
+Variable src_hash : srctx -> bytes.
+Variable src_outs : srctx -> list txout.
+Variable dbs : nat -> bytes -> option srctx.      (* several databases may be used in one history *)
+
+(* coins/bitcoin/Tx.py unspents_from_db: the new list is built first, self.unspents is assigned last *)
+Fixpoint unspents_from_db_list (db : bytes -> option srctx) (ignore_missing : bool) (ins : list txin)
+    : outcome (list (option txout)) :=
+  match ins with
+  | [] => Ret []
+  | tx_in :: r =>
+    if txin_is_coinbase tx_in then
+      do us <- unspents_from_db_list db ignore_missing r; Ret (None :: us)
+    else
+      let missing := if ignore_missing
+                     then (do us <- unspents_from_db_list db ignore_missing r; Ret (None :: us))
+                     else Raise E_KEY in
+      match db (i_hash tx_in) with
+      | Some the_tx =>          (* a Tx object is truthy *)
+        if bytes_eqb (src_hash the_tx) (i_hash tx_in) then
+          do o <- py_index (src_outs the_tx) (i_index tx_in);
+          do us <- unspents_from_db_list db ignore_missing r; Ret (Some o :: us)
+        else missing
+      | None => missing
+      end
+  end.
+
+Definition unspents_from_db_st (db : bytes -> option srctx) (ignore_missing : bool) (t : tx) : outcome Z * tx :=
+  match unspents_from_db_list db ignore_missing (t_ins t) with
+  | Ret us => (Ret 0, with_unspents t us)
+  | Raise e => (Raise e, t)
+  | OutOfFuel => (OutOfFuel, t)
+  end.
+
+Inductive op :=
+| ObsTotalIn | ObsTotalOut | ObsFee | ObsIsCoinbase | ObsValidate (k : nat)
+| MutSetUnspents (us : list (option txout))
+| MutUnspentsFromDb (k : nat) (ignore_missing : bool)
+| MutAssignUnspents (us : list (option txout))
+| MutEditUnspent (i : nat) (v : Z)
+| MutAppendUnspent (u : option txout)
+| MutClearUnspents
+| MutAssignOuts (outs : list txout)
+| MutEditOut (i : nat) (v : Z)
+| MutAppendOut (o : txout)
+| MutAssignIns (ins : list txin)
+| MutDistribute (fe : feearg).
+
+Definition is_observer (o : op) : bool :=
+  match o with ObsTotalIn | ObsTotalOut | ObsFee | ObsIsCoinbase | ObsValidate _ => true | _ => false end.
+
+(* one call on the object: what the caller sees, and the object afterwards *)
+Definition step (o : op) (t : tx) : outcome Z * tx :=
+  match o with
+  | ObsTotalIn => (total_in t, t)
+  | ObsTotalOut => (Ret (total_out t), t)
+  | ObsFee => (fee t, t)
+  | ObsIsCoinbase => (b2o (tx_is_coinbase t), t)
+  | ObsValidate k => (validate_unspents srctx src_hash src_outs (dbs k) t, t)
+  | MutSetUnspents us => set_unspents_st t us
+  | MutUnspentsFromDb k im => unspents_from_db_st (dbs k) im t
+  | MutAssignUnspents us => (Ret 0, with_unspents t us)
+  | MutEditUnspent i v => edit_unspent_st t i v
+  | MutAppendUnspent u => (Ret 0, with_unspents t (t_unspents t ++ [u]))
+  | MutClearUnspents => (Ret 0, with_unspents t [])
+  | MutAssignOuts outs => (Ret 0, set_outs t outs)
+  | MutEditOut i v => edit_out_st t i v
+  | MutAppendOut o => (Ret 0, set_outs t (t_outs t ++ [o]))
+  | MutAssignIns ins => (Ret 0, with_ins t ins)
+  | MutDistribute fe => distribute_from_split_pool_st tx_byte_count t fe
+  end.
+
+Fixpoint run (h : list op) (t : tx) : list (outcome Z) * tx :=
+  match h with
+  | [] => ([], t)
+  | o :: r => let '(res, t1) := step o t in let '(rs, t2) := run r t1 in (res :: rs, t2)
+  end.
+End History.
